@@ -117,7 +117,62 @@ func TestVerifC01(t *testing.T) {
 			}
 		}
 	}
-	vWrite(t, []string{"the table interpreter is a hand transcription of parse/lalr/gotoState in go_parser.go.tmpl", "language oracle: Earley recogniser over grammars whose nonterminals are all productive and reachable"}, ck, fam)
+	// Nonterminals that are nullable only through rules carrying a state marker (markers consume
+	// nothing): reductions in front of them get their lookahead by looking through them.
+	mk := vNew("C01/nullable-through-markers", "grammar shapes S: [t] X M u | [t] v ; X: %empty ; M: .m0 [P] ; P: %empty  and  S: t A u ; A: B M ; B: v | v w ; M: .m0 over 3 terminals (all choices of t, u, v, w), all token strings of length <=5, options {plain, optimize, minimize}", true,
+		"Compile", "compiler.computeEmpty", "compiler.buildLA")
+	for code := 0; code < 3*3*3*3*4; code++ {
+		tsym := func(k int) Sym {
+			v := code
+			for i := 0; i < k; i++ {
+				v /= 3
+			}
+			return Sym(1 + v%3)
+		}
+		shape := code / 81
+		S, X, M, P := Sym(4), Sym(5), Sym(6), Sym(7)
+		hg := &hGrammar{nt: 4, nn: 3, inputs: []Input{{Nonterminal: S, Eoi: true}}, marks: []string{"m0"}}
+		switch shape {
+		case 0:
+			hg.rules = []Rule{{LHS: S, RHS: []Sym{X, M, tsym(0)}}, {LHS: S, RHS: []Sym{tsym(1)}}, {LHS: X, RHS: nil}, {LHS: M, RHS: []Sym{Marker(0)}}}
+		case 1:
+			hg.rules = []Rule{{LHS: S, RHS: []Sym{tsym(2), X, M, tsym(0)}}, {LHS: S, RHS: []Sym{tsym(2), tsym(1)}}, {LHS: X, RHS: nil}, {LHS: M, RHS: []Sym{Marker(0)}}}
+		case 2:
+			hg.nn = 4
+			hg.rules = []Rule{{LHS: S, RHS: []Sym{X, M, tsym(0)}}, {LHS: S, RHS: []Sym{tsym(1)}}, {LHS: X, RHS: nil}, {LHS: M, RHS: []Sym{Marker(0), P}}, {LHS: P, RHS: nil}}
+		default:
+			// S: t A u ; A: B M ; B: v | v w ; M: .m0   (X plays A, P plays B)
+			hg.nn = 4
+			hg.rules = []Rule{{LHS: S, RHS: []Sym{tsym(2), X, tsym(0)}}, {LHS: X, RHS: []Sym{P, M}}, {LHS: P, RHS: []Sym{tsym(1)}}, {LHS: P, RHS: []Sym{tsym(1), tsym(3)}}, {LHS: M, RHS: []Sym{Marker(0)}}}
+		}
+		g := hg.build()
+		if _, err, pmsg := hCompile(g, Options{}); err != nil || pmsg != "" {
+			mk.Case(false)
+			continue
+		}
+		mk.Case(true)
+		if code%81 == 0 {
+			mk.Sample(hg.String())
+		}
+		e := newEarley(hg, hg.inputs[0].Nonterminal)
+	mkOpts:
+		for _, o := range []Options{{}, {Optimize: true}, {MinimizeDFA: true}} {
+			tb, err, pmsg := hCompile(hg.build(), o)
+			if pmsg != "" || err != nil {
+				mk.Failf(hg.String(), "Compile with %+v: err=%v panic=%s", o, err, pmsg)
+				break
+			}
+			for _, w := range hStrings(hg.nt, 5) {
+				wantAcc, wantErr := hExpect(e, hg.inputs[0], w)
+				tr := tb.hRun(g, 0, w, hRunOpts{optimized: o.Optimize})
+				if tr.bad != "" || tr.accept != wantAcc || !tr.accept && tr.errAt != wantErr {
+					mk.Failf(hg.String(), "opts %+v tokens %q: parser accepts=%v (error at %d) %s, grammar says %v (first offending token %d)", o, hStr(w), tr.accept, tr.errAt, tr.bad, wantAcc, wantErr)
+					break mkOpts
+				}
+			}
+		}
+	}
+	vWrite(t, []string{"the table interpreter is a hand transcription of parse/lalr/gotoState in go_parser.go.tmpl", "language oracle: Earley recogniser over grammars whose nonterminals are all productive and reachable"}, ck, fam, mk)
 }
 
 // ---------- C03 ----------
@@ -435,31 +490,48 @@ func TestVerifC04(t *testing.T) {
 				if !c.shift || len(c.reduces) == 0 {
 					continue
 				}
-				if len(c.reduces) > 1 {
-					complex = true
-					continue
-				}
-				rule := c.reduces[0]
-				rp := hPrecOf(hg, rule)
-				want := byte('c') // conflict -> shift
-				if rp != 0 && term != 0 && hGroup(hg, rp) >= 0 && hGroup(hg, Sym(term)) >= 0 {
-					gr, gt := hGroup(hg, rp), hGroup(hg, Sym(term))
-					switch {
-					case gr > gt:
-						want = 'r'
-					case gr < gt:
-						want = 's'
-					default:
-						switch hg.prec[gr].Associativity {
-						case Left:
-							want = 'r'
-						case Right:
-							want = 's'
-						default:
-							want = 'e'
-						}
+				// Several reductions next to the shift are merged one by one in rule order: a
+				// reduction that beats the shift by precedence takes the cell (later ones are
+				// unresolved reduce/reduce choices and lose to the earlier rule), %nonassoc turns
+				// the cell into an error for good, and once a choice is undecidable the cell stays
+				// a shift.
+				reds := append([]int(nil), c.reduces...)
+				sort.Ints(reds)
+				want := byte('s')
+				rule, rp := reds[0], Sym(0)
+				for _, cand := range reds {
+					if want != 's' {
+						break
 					}
-					decided++
+					cp := hPrecOf(hg, cand)
+					res := byte('c') // conflict -> shift
+					if cp != 0 && term != 0 && hGroup(hg, cp) >= 0 && hGroup(hg, Sym(term)) >= 0 {
+						gr, gt := hGroup(hg, cp), hGroup(hg, Sym(term))
+						switch {
+						case gr > gt:
+							res = 'r'
+						case gr < gt:
+							res = 's'
+						default:
+							switch hg.prec[gr].Associativity {
+							case Left:
+								res = 'r'
+							case Right:
+								res = 's'
+							default:
+								res = 'e'
+							}
+						}
+						decided++
+					}
+					if res != 's' {
+						want, rule, rp = res, cand, cp
+					}
+				}
+				if len(c.reduces) > 1 && want != 's' {
+					// conflict counts are compared only when every multi-reduction cell is decided
+					// for the shift (no conflict at all); how the others are counted is not specified
+					complex = true
 				}
 				kind, val := tb.hTableAction(ts, term)
 				ok := false
@@ -917,7 +989,14 @@ func (t *Tables) hIsF13(g *Grammar, in int, w []Sym) bool {
 						break
 					}
 				} else if shifts >= 1 {
-					return true // a reduction between two tokens of the lookahead window
+					// a reduction between two tokens of the lookahead window. Reductions of empty
+					// rules are NOT part of the finding: nullable nonterminals after a lookahead
+					// token are followed through.
+					var rule int
+					fmt.Sscanf(e[1:], "%d", &rule)
+					if rule >= 0 && rule < len(t.RuleLen) && t.RuleLen[rule] > 0 {
+						return true
+					}
 				}
 			}
 		}
@@ -1002,15 +1081,30 @@ func TestVerifC07(t *testing.T) {
 				return s
 			}
 			e := Sym(1 + r.Intn(nt-1))
+			t1, t2 := tail(), tail()
+			if r.Intn(2) == 0 {
+				// a common first token, so that one token of lookahead cannot decide; sometimes
+				// followed by the (possibly nullable) nonterminal in one of the tails
+				first := Sym(1 + r.Intn(nt-1))
+				if r.Intn(2) == 0 {
+					t1 = append([]Sym{X}, t1...)
+				}
+				t1 = append([]Sym{first}, t1...)
+				t2 = append([]Sym{first}, t2...)
+			}
 			hg.rules = []Rule{
-				{LHS: S, RHS: append([]Sym{A}, tail()...)},
-				{LHS: S, RHS: append([]Sym{B}, tail()...)},
+				{LHS: S, RHS: append([]Sym{A}, t1...)},
+				{LHS: S, RHS: append([]Sym{B}, t2...)},
 				{LHS: A, RHS: []Sym{e}},
 				{LHS: B, RHS: []Sym{e}},
 				{LHS: X, RHS: []Sym{Sym(1 + r.Intn(nt-1))}},
 			}
 			if r.Intn(2) == 0 {
 				hg.rules = append(hg.rules, Rule{LHS: X, RHS: []Sym{Sym(1 + r.Intn(nt-1)), Sym(1 + r.Intn(nt-1))}})
+			}
+			if r.Intn(3) == 0 {
+				// a nullable nonterminal in the tails: the token after it is lookahead as well
+				hg.rules = append(hg.rules, Rule{LHS: X, RHS: nil})
 			}
 			if !hg.useful() {
 				continue
